@@ -72,7 +72,7 @@ def check_v2_errors(model, rep):
                 ok = _in_try_converting(f, c, 'ValueError') or _digit_guarded(f, c)
                 rep.ob('R19.1', f.key, f.where(c), ok, f'`{src(c)}` of user text is converted under a ValueError->ExpressionSyntaxError handler or a digit test' if ok else
                        f'`{src(c)}` parses user text without a ValueError handler or a digit-range test: a malformed number escapes as ValueError', statement=f'convert {src(c)}')
-    if n < 35:
+    if n < 20:     # a guard against vacuity only (the pinned tree has about 37 sites; merging sibling parsers into a shared helper legitimately lowers the number)
         raise AnalysisError(f'_Parser: only {n} raise/conversion sites found')
     # name resolution inside the parser and the ops (the exception type is part of the property)
     for u in scopes.unresolved(m):
